@@ -298,43 +298,43 @@ def check_lifetimes(ctx):
               detail={'lft': tq.text(lft, 500) if lft is not None else None})
 
 
-def check_policy_builder(ctx):
+def check_policy_builder(ctx, rule='L3'):
     fi = ctx.func('xfrm.Xfrm.create_policy')
     S = ctx.sval(fi)
     site = ctx.site(fi, fi.node)
-    sr = common.one_send(ctx, 'L3', fi, 'NEWPOLICY', 'create_policy')
+    sr = common.one_send(ctx, rule, fi, 'NEWPOLICY', 'create_policy')
     if sr is None:
         return
     pol = sr.args.get('payload', NONE)
     ok = tq.is_call(pol, 'new xfrm.XfrmUserPolicyInfo')
-    ctx.check(ok, 'L3', 'create_policy builds one xfrm_userpolicy_info and sends it', key=('L3', 'policy'), site=site)
+    ctx.check(ok, rule, 'create_policy builds one xfrm_userpolicy_info and sends it', key=(rule, 'policy'), site=site)
     if not ok:
         return
     kw = tq.args(pol)
-    common.selector_orientation(ctx, 'L3', fi, kw.get('sel', NONE), 'create_policy')
+    common.selector_orientation(ctx, rule, fi, kw.get('sel', NONE), 'create_policy')
     want = {'dir': 'direction', 'index': 'index', 'action': 'XFRM_POLICY_ALLOW'}
     for k, v in want.items():
-        common.expect_term(ctx, 'L3', S, kw.get(k), v, 'create_policy: %s = %s' % (k, v), ('L3', 'create_policy', k), site)
-    ctx.check(kw.get('lft') is not None and lft_values(ctx, fi, kw['lft'], {}) == WANT_INF, 'L3', 'create_policy: the policy never expires',
-              key=('L3', 'create_policy', 'lft'), site=site)
-    ctx.check(set(kw) == set(want) | {'sel', 'lft'}, 'L3', 'create_policy sets no other policy field', key=('L3', 'create_policy', 'extra'),
+        common.expect_term(ctx, rule, S, kw.get(k), v, 'create_policy: %s = %s' % (k, v), (rule, 'create_policy', k), site)
+    ctx.check(kw.get('lft') is not None and lft_values(ctx, fi, kw['lft'], {}) == WANT_INF, rule, 'create_policy: the policy never expires',
+              key=(rule, 'create_policy', 'lft'), site=site)
+    ctx.check(set(kw) == set(want) | {'sel', 'lft'}, rule, 'create_policy sets no other policy field', key=(rule, 'create_policy', 'extra'),
               site=site, detail={'found': sorted(kw)})
     at = sr.args.get('attributes', NONE)
     ents = [e for e in at[1]] if at[0] == 'dict' else []
     ok = len(ents) == 1 and len(ents[0]) == 2 and tq.text(ents[0][0]).endswith('XFRMA_TMPL') and tq.is_call(ents[0][1], 'new xfrm.XfrmUserTmpl')
-    ctx.check(ok, 'L3', 'create_policy attaches exactly one template as XFRMA_TMPL', key=('L3', 'tmpl'), site=site,
+    ctx.check(ok, rule, 'create_policy attaches exactly one template as XFRMA_TMPL', key=(rule, 'tmpl'), site=site,
               detail={'attributes': tq.text(at, 400)})
     if ok:
         tk = tq.args(ents[0][1])
-        common.expect_term(ctx, 'L3', S, tk.get('id'), 'XfrmId(daddr=XfrmAddress.from_ipaddr(dst), proto=ipsec_proto)',
-                           'template id: tunnel destination and IPsec protocol (SPI 0 = any)', ('L3', 'tmpl-id'), site)
-        ctx.check(tk.get('id') is not None and tq.is_call(tk['id']) and set(tq.args(tk['id'])) == {'daddr', 'proto'}, 'L3',
-                  'template id: no SPI is set', key=('L3', 'tmpl-id-extra'), site=site)
-        ctx.check(tk.get('family') is not None and common.family_ok(ctx, tk['family'], 'src'), 'L3',
-                  'template: family follows the tunnel endpoint\'s IP version', key=('L3', 'tmpl', 'family'), site=site)
+        common.expect_term(ctx, rule, S, tk.get('id'), 'XfrmId(daddr=XfrmAddress.from_ipaddr(dst), proto=ipsec_proto)',
+                           'template id: tunnel destination and IPsec protocol (SPI 0 = any)', (rule, 'tmpl-id'), site)
+        ctx.check(tk.get('id') is not None and tq.is_call(tk['id']) and set(tq.args(tk['id'])) == {'daddr', 'proto'}, rule,
+                  'template id: no SPI is set', key=(rule, 'tmpl-id-extra'), site=site)
+        ctx.check(tk.get('family') is not None and common.family_ok(ctx, tk['family'], 'src'), rule,
+                  'template: family follows the tunnel endpoint\'s IP version', key=(rule, 'tmpl', 'family'), site=site)
         for k, v in (('saddr', 'XfrmAddress.from_ipaddr(src)'), ('mode', 'mode'), ('aalgos', '4294967295'), ('ealgos', '4294967295'),
                      ('calgos', '4294967295')):
-            common.expect_term(ctx, 'L3', S, tk.get(k), v, 'template: %s = %s' % (k, v), ('L3', 'tmpl', k), site)
+            common.expect_term(ctx, rule, S, tk.get(k), v, 'template: %s = %s' % (k, v), (rule, 'tmpl', k), site)
 
 
 def check_delete_flush(ctx):
